@@ -4,10 +4,11 @@ CONSTANTS
   Acceptors = {1, 2, 3, 4, 5, 6}
   Conns = {1, 2, 3, 4, 5, 6}
   Closers = {1, 2}
-  MaxCloses = 2
+  MaxCloses = 3
+  MaxTotal = 6
   MaxErrs = 2
   Spurious = FALSE
-  GenDepth = 18
+  GenDepth = 20
   CloseAfter = 9
 INVARIANT Emit
 CHECK_DEADLOCK FALSE
